@@ -96,6 +96,16 @@ class Session:
             self.init_storage = storage
         return self.datafit
 
+    def _prevalidated(self, X, knobs):
+        """Composition matrix only: validation inspects attribute *names*, so it is first run
+        on the plain (uncompiled) objects; a refusal raised there is the cell's outcome and no
+        jitclass has to be compiled for it."""
+        solver = B.build_solver(self.solver_name, knobs)
+        df = B.build_datafit(self.dname, self.family.get("dargs"), compiled=False)
+        pen = B.build_penalty(self.pname, self.pargs, compiled=False)
+        solver._validate(X, self.y, df, pen)       # raises on refusal
+        return True
+
     def probe(self, name, n=1):
         self.probes[name] = self.probes.get(name, 0) + n
 
@@ -115,7 +125,7 @@ class Session:
         return np.zeros(self.p_s + fi)
 
     # ------------------------------------------------------------------ one solver call
-    def call_solver(self, knobs, start, w0, faults, storage, record=True, rng_key=None):
+    def call_solver(self, knobs, start, w0, faults, storage, record=True, rng_key=None, raw_w0=False):
         """Returns a result dict; never raises for exceptions coming out of skglm.
 
         The hidden generator behind the sparse power method (F-RNG seam) is re-seeded
@@ -131,6 +141,8 @@ class Session:
                    exc=None, w=None, obj_out=None, stop_crit=None, Xw_buf=None, w_buf=None,
                    w_start=None, same_object=None, seam=None)
         try:
+            if self.plan.get("matrix") and not self._prevalidated(X, knobs):
+                pass
             datafit = self.get_datafit(X, storage)
             penalty = self.get_penalty()
             solver = B.build_solver(self.solver_name, knobs)
@@ -156,9 +168,12 @@ class Session:
                 w_init = self.zeros_w(fi)
             else:
                 w_init = np.array(w0, dtype=float)
-                if w_init.shape[0] != self.p_s + fi:   # plan written for another fi
+                if w_init.shape[0] != self.p_s + fi and not raw_w0:   # plan written for another fi
                     w_init = self.zeros_w(fi)
-            Xw_init = self.model_fit(w_init, fi)
+            if w_init.shape[0] == self.p_s + fi:
+                Xw_init = self.model_fit(w_init, fi)
+            else:   # deliberately mis-sized start vector (must be refused by the solver)
+                Xw_init = np.zeros(self.y.shape if self.multitask else self.n_s)
             w_start = w_init.copy()
             res["start"] = "point"
         res["w_start"] = w_start
